@@ -570,6 +570,215 @@ Proof.
         destruct (suf_cons src (i + len (render_cell cl) + 1) _ _ ltac:(lia) Hs2) as (Hlt2 & _). repeat split; lia.
 Qed.
 
+Lemma Forall_firstn_ {A} (Pp:A -> Prop) n l : Forall Pp l -> Forall Pp (firstn n l).
+Proof.
+  revert l. induction n as [|n IH]; intros l H; [constructor|]. destruct l as [|x l]; [constructor|].
+  cbn [firstn]. inversion H; subst. constructor; auto.
+Qed.
+
+Lemma render_file_nonnil rws : rws <> [] -> render_file rws <> [].
+Proof.
+  destruct rws as [|r rws]; [contradiction|]. intros _. rewrite render_file_cons. intros E.
+  destruct (render_row_nonnil r). destruct (render_row r); [reflexivity|discriminate].
+Qed.
+
+(* what a call has achieved when it stops after k records, the last of which ends at byte e *)
+Definition done (k e:Z) (s:st) : Prop :=
+  s_index s <= len src /\ stops s = true /\ s_eol s = e /\ s_row s = k /\ s_ifull s = (k =? maxrow) /\
+  s_vfull s = false /\ Good (fun _ => k) (s_inds s) (s_vals s).
+
+(* the window cuts record k of the table: p is what is left of it in the window *)
+Definition cut (k:nat) (p:list Z) : Prop :=
+  p = [] \/ (Z.of_nat k < maxrow /\ (k < length rows)%nat /\ exists q, q <> [] /\ render_row (nth k rows []) = p ++ q).
+
+Hypothesis Hrect : Forall (fun rw : list cell => len rw = ncols) rows.
+
+Lemma nth_rect k : (k < length rows)%nat -> len (nth k rows []) = ncols.
+Proof. intros H. rewrite Forall_forall in Hrect. apply Hrect. apply nth_In. exact H. Qed.
+
+Lemma nows_cut k p : cut k p -> nows p.
+Proof.
+  intros [->|(_ & Hk & q & _ & E)]; [exact I|]. apply (nows_app_l p q). rewrite <- E.
+  rewrite <- (app_nil_r (render_row _)). apply nows_render_row.
+  pose proof (nth_rect k Hk) as Hl. intros E0. rewrite E0 in Hl. unfold len in Hl; cbn in Hl; lia.
+Qed.
+
+Lemma body_prefix (k:nat) i e inds vals p :
+  (k <= length rows)%nat -> Z.of_nat k <= maxrow -> 0 <= i -> e = i - 1 ->
+  suf src i = render_file (firstn k rows) ++ p -> cut k p ->
+  (k <> 0%nat \/ p <> []) ->
+  Good (fun _ => 0) inds vals ->
+  exists s, reaches (cstate i e 0 0 inds vals) s /\ done (Z.of_nat k) (i + len (render_file (firstn k rows)) - 1) s.
+Proof.
+  intros Hk Hkm Hi He H Hcut Hne HG.
+  assert (Hpart : forall i2 e2 inds2 vals2, 0 <= i2 -> suf src i2 = p -> p <> [] -> Good (fun _ => Z.of_nat k) inds2 vals2 ->
+            exists s, reaches (cstate i2 e2 0 (Z.of_nat k) inds2 vals2) s /\ done (Z.of_nat k) e2 s).
+  { intros i2 e2 inds2 vals2 Hi2 H2 Hp HG2. destruct Hcut as [->|(Hkm2 & Hk2 & q & Hq & E)]; [contradiction|].
+    pose proof (nth_rect k Hk2) as Hl.
+    destruct (run_partial_cells (Z.of_nat k) ltac:(unfold nrows, len; lia) ltac:(lia) (nth k rows []) 0 i2 e2 inds2 vals2 p q)
+      as (s & R & Hidx & Heol & Hrow & Hif & Hvf & HGs); try assumption; try lia.
+    { intros E0. rewrite E0 in Hl. unfold len in Hl; cbn in Hl; lia. }
+    { intros j Hj. rewrite cell_text_eq. rewrite Z.add_0_l. rewrite Nat2Z.id. reflexivity. }
+    { eapply Good_ext; [|exact HG2]. intros x Hx. cbv beta. destruct (x <? 0) eqn:E0; [apply Z.ltb_lt in E0; lia|reflexivity]. }
+    exists s. split; [exact R|]. unfold done, stops. rewrite Hidx, Z.eqb_refl. cbn [orb].
+    split; [lia|]. split; [reflexivity|]. split; [exact Heol|]. split; [exact Hrow|].
+    split; [rewrite Hif; symmetry; apply Z.eqb_neq; lia|]. split; [exact Hvf|exact HGs]. }
+  destruct k as [|k'].
+  - (* no complete record in the window *)
+    destruct Hne as [Hne|Hne]; [contradiction|]. cbn [firstn render_file map concat app] in *.
+    replace (len (@nil Z)) with 0 by reflexivity. rewrite Z.add_0_r. rewrite <- He.
+    apply (Hpart i e inds vals Hi H Hne). exact HG.
+  - set (k := S k') in *. set (recs := firstn k rows) in *.
+    assert (Hlrecs : len recs = Z.of_nat k) by (unfold recs, len; rewrite firstn_length; lia).
+    assert (Hrne : recs <> []) by (intros E0; rewrite E0 in Hlrecs; unfold len in Hlrecs; cbn in Hlrecs; lia).
+    destruct (run_rows_gen recs 0 i e inds vals p Hrne ltac:(lia) ltac:(unfold nrows, len in *; lia) ltac:(lia) Hi H (nows_cut k p Hcut))
+      as (n & s_pre & inds' & vals' & R & Hfin & HG').
+    { intros j Hj. rewrite Z.add_0_l. unfold nthd, recs. apply nth_firstn. lia. }
+    { apply Forall_firstn_. exact Hrect. }
+    { exact HG. }
+    rewrite Z.add_0_l, Hlrecs in Hfin, HG'.
+    pose proof (suf_app_len src i _ _ Hi H) as Hs. pose proof (len_nonneg (render_file recs)) as Hlr.
+    destruct p as [|x p'].
+    + (* the window ends exactly at a record end *)
+      rewrite app_nil_r in H. pose proof (suf_full src i _ Hi H (render_file_nonnil recs Hrne)) as Hfull.
+      eexists. split; [exists n, s_pre; split; [exact R|exact Hfin]|].
+      unfold done, stops, cstate_f. cbn [s_index s_eol s_row s_ifull s_vfull s_inds s_vals].
+      split; [lia|]. split; [rewrite Hfull, Z.eqb_refl; reflexivity|]. split; [reflexivity|]. split; [reflexivity|].
+      split; [reflexivity|]. split; [reflexivity|exact HG'].
+    + assert (Hkm2 : Z.of_nat k < maxrow) by (destruct Hcut as [E0|(Hkm2 & _)]; [discriminate|exact Hkm2]).
+      assert (Efl : (Z.of_nat k =? maxrow) = false) by (apply Z.eqb_neq; lia).
+      rewrite Efl, cstate_f_false in Hfin.
+      destruct (Hpart (i + len (render_file recs)) (i + len (render_file recs) - 1) inds' vals' ltac:(lia) Hs ltac:(discriminate) HG')
+        as (s & R2 & Hd).
+      exists s. split; [|exact Hd].
+      eapply reaches_trans; [exists n, s_pre; split; [exact R|exact Hfin]| |exact R2].
+      unfold noexit, CsvRows.cstate. cbn [s_index s_ifull s_vfull].
+      destruct (suf_cons src (i + len (render_file recs)) x p' ltac:(lia) Hs) as (Hlt & _). repeat split; lia.
+Qed.
+
+Lemma done_out k e s : done k e s ->
+  f_next (out_of s) = e + 1 /\ f_rows (out_of s) = k /\ f_ifull (out_of s) = (k =? maxrow) /\ f_vfull (out_of s) = false /\
+  Good (fun _ => k) (f_inds (out_of s)) (f_vals (out_of s)).
+Proof.
+  intros (_ & _ & He & Hr & Hi & Hv & HG). unfold out_of. cbn [f_next f_rows f_ifull f_vfull f_inds f_vals].
+  rewrite He. auto.
+Qed.
+
+(* the kernel re-entered (or entered without header) at byte i0, the first byte of a record *)
+Theorem kernel_prefix_nohdr (k:nat) i0 inds vals p :
+  (k <= length rows)%nat -> Z.of_nat k <= maxrow -> 0 <= i0 <= len src ->
+  suf src i0 = render_file (firstn k rows) ++ p -> cut k p ->
+  shape ncols w inds -> (forall c, 0 <= c < ncols -> I2 inds c 0 = 0) -> len vals = V ->
+  exists out, fast_csv_reader (fsm_fuel src i0) src i0 inds vals offs false = Ok out /\
+    f_next out = i0 + len (render_file (firstn k rows)) /\ f_rows out = Z.of_nat k /\
+    f_ifull out = (Z.of_nat k =? maxrow) /\ f_vfull out = false /\
+    Good (fun _ => Z.of_nat k) (f_inds out) (f_vals out).
+Proof.
+  intros Hk Hkm Hi0 H Hcut Hsh H0 Hv.
+  assert (HG0 : Good (fun _ => 0) inds vals) by (apply Good_init; try assumption; unfold w; lia).
+  unfold fast_csv_reader, fsm_init. cbn [Z.leb Z.compare bind].
+  rewrite (get2_ok 9 ncols w) by (try assumption; unfold w; lia). cbn [bind].
+  replace (fst inds - 1) with maxrow by (destruct Hsh as (Hf & _); unfold w in Hf; lia).
+  assert (Hcase : (k = 0%nat /\ p = []) \/ (k <> 0%nat \/ p <> [])).
+  { destruct k; [|right; left; discriminate]. destruct p; [left; auto|right; right; discriminate]. }
+  destruct Hcase as [(Ek & Ep)|Hne].
+  - (* nothing is left in the window *)
+    subst k p. cbn [firstn render_file map concat app] in *.
+    assert (Ei : i0 = len src) by (apply suf_nil_iff in H; lia).
+    assert (Esk : skip_ws0 (length src) src i0 = Ok i0).
+    { destruct (length src); cbn [skip_ws0]; (destruct (i0 <? len src) eqn:E; [apply Z.ltb_lt in E; lia|reflexivity]). }
+    rewrite Esk. cbn [bind]. rewrite getZ_ok by lia. cbn [bind s_index]. rewrite Ei, Z.eqb_refl.
+    eexists. split; [reflexivity|]. cbn [f_next f_rows f_ifull f_vfull f_inds f_vals s_row].
+    replace (len (@nil Z)) with 0 by reflexivity.
+    split; [lia|]. split; [reflexivity|]. split; [symmetry; apply Z.eqb_neq; cbn; lia|]. split; [reflexivity|exact HG0].
+  - pose proof (nows_file_app (firstn k rows) p (Forall_firstn_ _ k rows Hrect) (nows_cut k p Hcut)) as Hnw.
+    destruct (render_file (firstn k rows) ++ p) as [|x0 t0] eqn:E0.
+    { exfalso. apply app_eq_nil in E0. destruct E0 as (E1 & E2). destruct Hne as [Hne|Hne]; [|contradiction].
+      destruct k; [contradiction|]. destruct rows as [|r0 rows']; [cbn in Hk; lia|].
+      cbn [firstn] in E1. apply (render_file_nonnil (r0 :: firstn k rows')); [discriminate|exact E1]. }
+    cbn [nows] in Hnw. destruct (suf_cons src i0 x0 t0 ltac:(lia) H) as (Hlt0 & _).
+    rewrite (skip_ws0_stay src maxrow rows _ i0 x0 t0) by (try lia; assumption). cbn [bind].
+    rewrite getZ_ok by lia. cbn [bind s_index].
+    destruct (i0 =? len src) eqn:El; [apply Z.eqb_eq in El; lia|].
+    rewrite <- E0 in H.
+    destruct (body_prefix k i0 (i0 - 1) inds vals p Hk Hkm ltac:(lia) eq_refl H Hcut Hne HG0) as (s & R & Hd).
+    assert (Est : mkSt i0 (i0 - 1) 0 0 (-1) false false 0 (I2 inds 0 0) i0 false false 0 (nthZ offs 1) inds vals =
+                  cstate i0 (i0 - 1) 0 0 inds vals).
+    { unfold CsvRows.cstate. rewrite Hoffs0. replace (0 + 1) with 1 by lia. f_equal. lia. }
+    rewrite Est. destruct Hd as (Hle & Hstop & Hrest).
+    rewrite (reaches_loop _ s i0 R Hstop Hle) by (unfold CsvRows.cstate; cbn [s_index]; lia).
+    eexists. split; [reflexivity|].
+    destruct (done_out (Z.of_nat k) (i0 + len (render_file (firstn k rows)) - 1) s (conj Hle (conj Hstop Hrest)))
+      as (D1 & D2 & D3 & D4 & D5).
+    split; [rewrite D1; lia|]. auto.
+Qed.
+
+(* the first call: header line, then records *)
+Theorem kernel_prefix_hdr hdr (k:nat) inds vals p :
+  (k <= length rows)%nat -> Z.of_nat k <= maxrow -> len hdr = ncols ->
+  src = render_row hdr ++ render_file (firstn k rows) ++ p -> cut k p ->
+  shape ncols w inds -> (forall c, 0 <= c < ncols -> I2 inds c 0 = 0) -> len vals = V ->
+  exists out, fast_csv_reader (fsm_fuel src 0) src 0 inds vals offs true = Ok out /\
+    f_next out = len (render_row hdr) + len (render_file (firstn k rows)) /\ f_rows out = Z.of_nat k /\
+    f_ifull out = (Z.of_nat k =? maxrow) /\ f_vfull out = false /\
+    Good (fun _ => Z.of_nat k) (f_inds out) (f_vals out).
+Proof.
+  intros Hk Hkm Hhdr Hsrc Hcut Hsh H0 Hv.
+  assert (HG0 : Good (fun _ => 0) inds vals) by (apply Good_init; try assumption; unfold w; lia).
+  assert (Hhdr_ne : hdr <> []) by (intros ->; unfold len in Hhdr; cbn in Hhdr; lia).
+  assert (Hsuf : suf src 0 = render_row hdr ++ (render_file (firstn k rows) ++ p)) by (rewrite suf_0; exact Hsrc).
+  pose proof (nows_file_app (firstn k rows) p (Forall_firstn_ _ k rows Hrect) (nows_cut k p Hcut)) as Hnw.
+  pose proof (nows_render_row hdr (render_file (firstn k rows) ++ p) Hhdr_ne) as Hnw0.
+  destruct (render_row hdr ++ render_file (firstn k rows) ++ p) as [|x0 t0] eqn:E0.
+  { destruct (render_row_nonnil hdr). destruct (render_row hdr); [reflexivity|discriminate]. }
+  cbn [nows] in Hnw0.
+  destruct (suf_cons src 0 x0 t0 ltac:(lia) Hsuf) as (Hlt0 & _).
+  rewrite <- E0 in Hsuf.
+  unfold fast_csv_reader, fsm_init. cbn [Z.leb Z.compare bind].
+  replace (fst inds - 1) with maxrow by (destruct Hsh as (Hf & _); unfold w in Hf; lia).
+  rewrite (skip_ws0_stay src maxrow rows _ 0 x0 t0) by (try lia; try assumption; rewrite Hsuf, E0; reflexivity). cbn [bind].
+  rewrite getZ_ok by lia. cbn [bind s_index].
+  destruct (0 =? len src) eqn:El; [apply Z.eqb_eq in El; lia|].
+  destruct (run_header_cells src offs maxrow ncols Hoffs Hncols Hmaxrow inds vals Hsh hdr 0 0 (0 - 1) 0 0 (nthZ offs 1)
+              (render_file (firstn k rows) ++ p) Hhdr_ne ltac:(lia) ltac:(lia) ltac:(lia) Hsuf Hnw)
+    as (n1 & s_pre1 & R1 & Hfin1).
+  pose proof (len_nonneg (render_row hdr)) as Hlh. rewrite Z.add_0_l in Hfin1.
+  set (i1 := len (render_row hdr)) in *.
+  assert (Hrow0 : row0 offs inds vals i1 = cstate i1 (i1 - 1) 0 0 inds vals).
+  { unfold row0, CsvRows.cstate. replace (0 + 1) with 1 by lia. reflexivity. }
+  rewrite Hrow0 in Hfin1.
+  pose proof (suf_app_len src 0 _ _ ltac:(lia) Hsuf) as Hs1. rewrite Z.add_0_l in Hs1. fold i1 in Hs1.
+  assert (Hcase : (k = 0%nat /\ p = []) \/ (k <> 0%nat \/ p <> [])).
+  { destruct k; [|right; left; discriminate]. destruct p; [left; auto|right; right; discriminate]. }
+  assert (Hlsrc : len src = i1 + len (render_file (firstn k rows) ++ p)).
+  { rewrite (suf_full src 0 _ ltac:(lia) Hsuf) by (rewrite E0; discriminate). rewrite len_app. unfold i1. lia. }
+  assert (Hfinal : exists s, reaches (mkSt 0 (0 - 1) 0 (-1) (-1) false false 0 0 0 false false 0 (nthZ offs 1) inds vals) s /\
+                     done (Z.of_nat k) (i1 + len (render_file (firstn k rows)) - 1) s).
+  { destruct Hcase as [(Ek & Ep)|Hne].
+    - subst k p. cbn [firstn render_file map concat app] in *.
+      assert (Ei : i1 = len src) by (rewrite Hlsrc; replace (len (@nil Z)) with 0 by reflexivity; lia).
+      eexists. split; [exists n1, s_pre1; split; [exact R1|exact Hfin1]|].
+      unfold done, stops, CsvRows.cstate. cbn [s_index s_eol s_row s_ifull s_vfull s_inds s_vals].
+      replace (len (@nil Z)) with 0 by reflexivity.
+      split; [lia|]. split; [rewrite Ei, Z.eqb_refl; reflexivity|]. split; [lia|]. split; [reflexivity|].
+      split; [symmetry; apply Z.eqb_neq; cbn; lia|]. split; [reflexivity|exact HG0].
+    - destruct (body_prefix k i1 (i1 - 1) inds vals p Hk Hkm ltac:(lia) eq_refl Hs1 Hcut Hne HG0) as (s & R & Hd).
+      exists s. split; [|exact Hd].
+      eapply reaches_trans; [exists n1, s_pre1; split; [exact R1|exact Hfin1]| |exact R].
+      unfold noexit, CsvRows.cstate. cbn [s_index s_ifull s_vfull].
+      destruct (render_file (firstn k rows) ++ p) as [|x1 t1] eqn:E1.
+      { exfalso. apply app_eq_nil in E1. destruct E1 as (E1 & E2). destruct Hne as [Hne|Hne]; [|contradiction].
+        destruct k; [contradiction|]. destruct rows as [|r0 rows']; [cbn in Hk; lia|].
+        cbn [firstn] in E1. apply (render_file_nonnil (r0 :: firstn k rows')); [discriminate|exact E1]. }
+      destruct (suf_cons src i1 x1 t1 ltac:(lia) Hs1) as (Hlt & _). repeat split; lia. }
+  destruct Hfinal as (s & R & Hd). destruct Hd as (Hle & Hstop & Hrest).
+  rewrite (reaches_loop _ s 0 R Hstop Hle) by (cbn [s_index]; lia).
+  eexists. split; [reflexivity|].
+  destruct (done_out (Z.of_nat k) (i1 + len (render_file (firstn k rows)) - 1) s (conj Hle (conj Hstop Hrest)))
+    as (D1 & D2 & D3 & D4 & D5).
+  split; [rewrite D1; lia|]. auto.
+Qed.
+
 End Data2.
 
 End Pre.
